@@ -29,7 +29,13 @@ pub fn exec_case(case: &Case) -> CaseResult {
         Engine::Crash => run_case(case, crate::crash::body),
         Engine::LogSim => run_case(case, crate::logsim::body),
         Engine::IoFault => exec_iofault(case),
-        Engine::Corrupt => run_case(case, crate::corrupt::body),
+        Engine::Corrupt => {
+            if std::env::var_os("RAINSIM_IN_CHILD").is_some() {
+                run_case(case, crate::corrupt::body)
+            } else {
+                exec_corrupt_in_child(case)
+            }
+        }
         Engine::LockRace => run_case(case, crate::lockrace::body),
         _ => unimplemented!("engine {:?}", case.engine),
     }
@@ -120,6 +126,76 @@ fn hist_spec(prop: &'static str, profile: Profile, rule: &'static str, probes: &
         exhaustive: false,
         extra: json!({"engine": "hist: 1 client task + the real background compaction thread on SimFs under SimScheduler"}),
     }
+}
+
+fn run_child(case: &Case) -> (Option<CaseResult>, Option<Case>, Option<usize>, String) {
+    use std::io::Write;
+    let exe = match std::env::current_exe() {
+        Ok(e) => e,
+        Err(e) => return (None, None, None, format!("current_exe: {}", e)),
+    };
+    let mut child = match std::process::Command::new(exe).arg("exec-case").env("RAINSIM_IN_CHILD", "1").stdin(std::process::Stdio::piped()).stdout(std::process::Stdio::piped()).stderr(std::process::Stdio::piped()).spawn() {
+        Ok(c) => c,
+        Err(e) => return (None, None, None, format!("spawn: {}", e)),
+    };
+    {
+        let mut stdin = child.stdin.take().unwrap();
+        let _ = stdin.write_all(serde_json::to_string(case).unwrap().as_bytes());
+    }
+    let out = match child.wait_with_output() {
+        Ok(o) => o,
+        Err(e) => return (None, None, None, format!("wait: {}", e)),
+    };
+    let stdout = String::from_utf8_lossy(&out.stdout);
+    let stderr = String::from_utf8_lossy(&out.stderr);
+    let res = stdout.lines().find_map(|l| l.strip_prefix("RESULT ")).and_then(|j| serde_json::from_str::<CaseResult>(j).ok());
+    let derived = stdout.lines().find_map(|l| l.strip_prefix("DERIVED ")).and_then(|j| serde_json::from_str::<Case>(j).ok());
+    let progress = stderr.lines().rev().find_map(|l| l.strip_prefix("PROGRESS ")).and_then(|n| n.trim().parse().ok());
+    (res, derived, progress, format!("status {:?}", out.status))
+}
+
+/// C15 reopen simulations run in a child process: a corrupted length field that is not covered by
+/// a checksum can request an allocation so large that the process aborts instead of unwinding. An
+/// abort is an outcome ("neither an error nor correct data"), never a harness crash.
+fn exec_corrupt_in_child(case: &Case) -> CaseResult {
+    let (res, _, progress, status) = run_child(case);
+    if let Some(r) = res {
+        return r;
+    }
+    let mut r = CaseResult {
+        findings: vec![],
+        stats: Default::default(),
+        trace: vec![],
+        schedule: vec![],
+        history_digest: 0,
+        fs_digest: 0,
+        sched_digest: 0,
+        completed: false,
+        abort: Some(status.clone()),
+        replay_diverged: None,
+        derived: None,
+    };
+    let what = match progress {
+        Some(n) => format!("the process running the reopen simulations died ({}) while checking mutation #{} of this image: reading the corrupted file killed the process instead of returning an error", status, n),
+        None => format!("the process running the reopen simulation died ({}): reading the corrupted file killed the process instead of returning an error", status),
+    };
+    let mut f = crate::world::Finding { properties: vec!["C15".into()], class: "process-abort-on-corrupt-file".into(), signature: "process-abort-on-corrupt-file".into(), detail: what, seq: 0, op_index: progress, fault: None };
+    // fetch a self-contained case for the replay file: the child prints it before it dies
+    if case.corrupt.is_none() {
+        if let Some(n) = progress {
+            let mut c = case.clone();
+            c.params.insert("only_mutation".into(), n as i64);
+            c.params.insert("dump_derived".into(), 1);
+            let (_, derived, _, _) = run_child(&c);
+            if let Some(d) = derived {
+                f.detail.push_str(&format!("; mutation: {}", d.corrupt.as_ref().map(|s| s.what.clone()).unwrap_or_default()));
+                r.derived = Some(Box::new(d));
+            }
+        }
+    }
+    r.findings.push(f);
+    r.stats.bump("corruptions_checked", progress.map(|p| p as u64 + 1).unwrap_or(1));
+    r
 }
 
 /// C08: number the filesystem calls of the plan with a fault-free run, then re-execute the same
@@ -299,7 +375,7 @@ fn corrupt_spec() -> CheckSpec {
         rule: "one evaluation = one mutated filesystem image + reopen simulation. Base: a small recorded run (3-30 ops quick, -60 thorough; 1-3 tables, a WAL with a few batches, a manifest), closed cleanly or killed. For every table, WAL and manifest file of the image and every offset (all offsets in the thorough tier and for files <= 120 bytes; otherwise the first 16 and last 64 bytes plus a seeded sample of 120) the byte is replaced by {one flipped bit, 0x00, a random byte}; tables are additionally truncated at sampled/every length. Reopen simulation: DB::open, get of every universe key, forward and backward scan. Oracle: every call returns Err or exactly the model's answer; a scan that ends without error must equal the model exactly; for WAL files, additionally any state equal to the model minus a set of whole batches that live in that WAL (brute force over subsets of the last 10). A panic is a violation. distinct_nontrivial = distinct (files, writes, close mode) shapes x probes (mutation kind x file class).",
         assumptions: vec![
             "single-byte corruption or table truncation of one file per evaluation".into(),
-            "the two block handles in a table footer are not covered by a checksum; with single-byte mutations of small tables they cannot request more than 2^28 bytes, so no allocation failure (abort) was observed; an abort would terminate the check with a non-0/1 status (harness error), not a violation line".into(),
+            "reopen simulations run in a child process; a child that dies (e.g. allocation failure on a corrupted, unchecksummed footer handle) is reported as a violation for the mutation it was checking, never as a harness crash".into(),
         ],
         expected_probes: &["corrupt@bitflip:table", "corrupt@bitflip:wal", "corrupt@bitflip:manifest", "corrupt@truncate:table"],
         gen: Box::new(|rs, _i, tier| corrupt_case(rs, tier)),
